@@ -13,7 +13,7 @@ use crate::run::{finish, preflight, Ctx, Report, Tally, Tier, Violation};
 use scratchstack_aws_signature::{SignedHeaderRequirements, VecSignedHeaderRequirements};
 use std::collections::BTreeSet;
 
-const PREFIXES: [&str; 9] = ["x-amz", "x-amz-", "x-amz-meta", "x-amz-meta-", "x", "x-custom", "my-", "zzz", "content-"];
+const PREFIXES: [&str; 11] = ["x-amz", "x-amz-", "x-amz-meta", "x-amz-meta-", "x", "x-custom", "my-", "zzz", "content-", "h", "Ho"];
 
 fn recase(r: &mut Rng, s: &str) -> (String, bool) {
     match r.below(4) {
@@ -66,7 +66,8 @@ pub fn gen_reqs(r: &mut Rng) -> (Reqs, bool) {
         v
     };
     let mut cond_pool: Vec<&str> = EXTRA_HEADER_NAMES.to_vec();
-    cond_pool.extend_from_slice(&["content-type", "x-amz-date", "x-amz-security-token", "date", "content-length", "content-length"]);
+    // (host itself may be declared: the mandatory-host rule accepts `:authority` in its place, a declaration naming host does not)
+    cond_pool.extend_from_slice(&["content-type", "x-amz-date", "x-amz-security-token", "date", "content-length", "content-length", "host", "host"]);
     // (now and then an always-required name is one of the headers the verifier itself consults)
     let always = if r.chance(1, 8) {
         pick_names(r, &cond_pool, 2)
@@ -191,6 +192,11 @@ fn shard(seed: u64, shard: u64, n: u64) -> Tally {
             // near misses of the mandatory names do not satisfy the rule
             signed.push(r.pick(&["hostx", "host2", "xhost", ":authorityx", "hos", "authority", ":path", ":method", ":scheme", ":", ":host"]).to_string());
             signed.retain(|s| present.contains(s) || s.starts_with("host") || s.contains("authorit") || s == "hos" || s == "xhost" || s.starts_with(':'));
+        } else if dropped == ["host"] && (al.iter().chain(il.iter()).any(|n| n == "host") || cfg.reqs.prefixes.iter().any(|p| "host".starts_with(&p.to_ascii_lowercase()))) {
+            // the service's own declaration names host (or a prefix of it): `:authority` stands in for host under the
+            // mandatory-host rule only, the declared requirement is still unmet
+            signed.push(":authority".to_string());
+            t.count("authority_listed_while_the_declaration_names_host");
         } else if dropped.contains(&"host") && dropped.len() >= 2 && r.coin() {
             // the HTTP/2 spelling satisfies the host rule — and nothing else: the other dropped name is still missing
             signed.push(":authority".to_string());
@@ -248,6 +254,9 @@ fn shard(seed: u64, shard: u64, n: u64) -> Tally {
                 } => {
                     if dropped.len() == 1 {
                         t.count(&format!("violated_alone/{}", dropped[0]));
+                    }
+                    if signed.iter().any(|s| s == ":authority") && dropped == ["host"] {
+                        t.count("authority_for_a_declared_host_refused");
                     }
                     t.count("violated_refused");
                     t.nontrivial(case.hash());
@@ -451,6 +460,7 @@ pub fn run(tier: Tier) -> i32 {
     for b in [0, 1, 2, 4, 5] {
         ctx.gate(&format!("satisfied and accepted via construction path {}", b), tally.get(&format!("satisfied_accepted/build{}", b)), tier.n(300, 1000));
     }
+    ctx.gate("`:authority` listed in place of host while the declaration itself names host (or a prefix of it): refused", tally.get("authority_for_a_declared_host_refused"), tier.n(300, 5000));
     ctx.gate("always-required header missing from request and list, refused", tally.get("always_required_header_absent_from_the_request"), tier.n(300, 5000));
     ctx.gate("cases with long requirement lists and 15–30 prefixed headers", tally.get("long_requirement_lists"), tier.n(2000, 50_000));
     ctx.gate("mandatory name in another letter case inside SignedHeaders: refused, or accepted with the header bound", tally.get("recased_listed_name_refused") + tally.get("recased_listed_name_accepted_and_bound"), tier.n(3000, 100_000));
